@@ -713,3 +713,239 @@ Proof.
   - apply Qltb_lt in H. rewrite H. reflexivity.
   - destruct (Qltb (used_raw s dests tr) 0) eqn:E; [apply Qltb_lt in E; lra | reflexivity].
 Qed.
+
+(* ---------- the trash of a remove step is exactly what left the target ---------- *)
+Lemma trash_inner_get s a : forall cb t, wfc cb ->
+  get s (trash_inner a cb t) == get s t + (if has s (cont a) then 0 else get s cb).
+Proof.
+  unfold trash_inner. induction cb as [|[k v] cb IH]; intros t Hwf; simpl.
+  - destruct (has s (cont a)); ring.
+  - inversion Hwf as [|x l Hni Hwf']; subst. rewrite IH by exact Hwf'.
+    destruct (has k (cont a)) eqn:Hk.
+    + destruct (seqb k s) eqn:E; [apply seqb_eq in E; subst k; rewrite Hk; ring | reflexivity].
+    + rewrite get_upd. destruct (seqb k s) eqn:E.
+      * apply seqb_eq in E. subst k. rewrite Hk. rewrite (get_notin s cb) by exact Hni. ring.
+      * destruct (has s (cont a)); ring.
+Qed.
+Lemma trash_of_get s : forall bs as_ t0, length as_ = length bs -> Forall (fun b => wfc (cont b)) bs ->
+  get s (fold_left (fun t p => trash_inner (snd p) (cont (fst p)) t) (combine bs as_) t0) ==
+  get s t0 + Qsum (map (fun p => if has s (cont (snd p)) then 0 else get s (cont (fst p))) (combine bs as_)).
+Proof.
+  induction bs as [|b bs IH]; intros [|a as_] t0 Hl Hwf; simpl in *; try discriminate; [ring|].
+  inversion Hwf; subst. rewrite IH by (auto; lia). rewrite trash_inner_get by assumption. ring.
+Qed.
+
+Definition removed_rel (w : what) (b a : container) : Prop :=
+  cont a = cont b \/ cont a = filter (fun p => negb (selected w (fst p))) (cont b).
+Lemma filter_idem {A} (P : A -> bool) l : filter P (filter P l) = filter P l.
+Proof. induction l as [|x l IH]; simpl; [reflexivity|]. destruct (P x) eqn:E; simpl; rewrite ?E, IH; reflexivity. Qed.
+
+Lemma fold_wells_rel {A} (f : A -> container -> result (A * container)) (R : container -> container -> Prop) :
+  (forall a w a' w' b, R b w -> f a w = Ok (a', w') -> R b w') ->
+  forall idxs a ws a' ws' (ws0 : list container),
+    (forall j b w, nth_error ws0 j = Some b -> nth_error ws j = Some w -> R b w) ->
+    fold_wells f idxs a ws = Ok (a', ws') ->
+    forall j b w, nth_error ws0 j = Some b -> nth_error ws' j = Some w -> R b w.
+Proof.
+  intros Hf. induction idxs as [|i t IH]; intros a ws a' ws' ws0 H0 H.
+  - simpl in H. inversion H; subst. exact H0.
+  - rewrite fold_wells_cons in H. destruct (nth_error ws i) as [w|] eqn:E; [|discriminate].
+    unfold bind in H. destruct (f a w) as [[a1 w1]|] eqn:Ef; [|discriminate]. simpl in H.
+    eapply IH; [|exact H]. intros j b x Eb Ex. destruct (Nat.eq_dec i j) as [<-|Hne].
+    + rewrite nth_error_set_nth_same in Ex by (eapply nth_error_lt; eassumption). inversion Ex; subst.
+      eapply Hf; [|exact Ef]. eapply H0; eassumption.
+    + rewrite nth_error_set_nth_other in Ex by exact Hne. eapply H0; eassumption.
+Qed.
+
+Lemma removed_rel_loss w s b a : wfc (cont b) -> removed_rel w b a ->
+  (if has s (cont a) then 0 else get s (cont b)) == get s (cont b) - get s (cont a).
+Proof.
+  intros Hwf [E|E]; rewrite E.
+  - destruct (has s (cont b)) eqn:Hh; [ring|].
+    assert (~ In s (keys (cont b))) by (intro Hin; apply has_in in Hin; congruence). rewrite get_notin by assumption. ring.
+  - rewrite (get_filter s (fun x => negb (selected w x))).
+    destruct (selected w s) eqn:Hs; simpl.
+    + destruct (has s _) eqn:Hh; [|ring]. apply has_in in Hh. apply (keys_filter_P (fun x => negb (selected w x))) in Hh.
+      rewrite Hs in Hh. discriminate.
+    + destruct (has s _) eqn:Hh; [ring|].
+      assert (Hn : ~ In s (keys (cont b))).
+      { intro Hin. assert (has s (filter (fun p => negb (selected w (fst p))) (cont b)) = true); [|congruence].
+        apply has_in. unfold keys in *. apply in_map_iff in Hin. destruct Hin as [[k v] [Ek Hin]]. simpl in Ek. subst k.
+        apply in_map_iff. exists (s, v). split; [reflexivity|]. apply filter_In. split; [exact Hin|]. simpl. rewrite Hs. reflexivity. }
+      rewrite get_notin by exact Hn. ring.
+Qed.
+
+Lemma Qsum_combine_loss w s : forall bs as_, length as_ = length bs -> Forall (fun b => wfc (cont b)) bs ->
+  (forall j b a, nth_error bs j = Some b -> nth_error as_ j = Some a -> removed_rel w b a) ->
+  Qsum (map (fun p => if has s (cont (snd p)) then 0 else get s (cont (fst p))) (combine bs as_)) ==
+  wsum (cget s) bs - wsum (cget s) as_.
+Proof.
+  unfold wsum. induction bs as [|b bs IH]; intros [|a as_] Hl Hwf HR; simpl in *; try discriminate; [ring|].
+  inversion Hwf; subst. rewrite IH; [| lia | assumption | intros j b' a' Eb Ea; exact (HR (S j) b' a' Eb Ea)].
+  rewrite (removed_rel_loss w s b a); [unfold cget; ring | assumption | exact (HR O b a eq_refl eq_refl)].
+Qed.
+
+Theorem remove_trash_is_loss cf d13 s e t w e' k :
+  renv_inv cf e -> bake_step cf d13 e (SRemove t w) = Ok (e', k) ->
+  get s (s_trash k) == amount_in_obj s (s_to0 k) - amount_in_obj s (s_to1 k).
+Proof.
+  intros He. destruct t as [n|n r]; simpl; unfold bind.
+  - destruct (getc e n) as [c|] eqn:E1; [|discriminate]. intros H; inversion H; subst; clear H. cbn [s_trash s_to0 s_to1].
+    pose proof (getc_inv _ _ _ _ He E1) as Ic. rewrite !amount_c. rewrite trash_of_unfold.
+    rewrite (trash_of_get s [c] [remove cf c w] []); [| reflexivity | constructor; [apply (inv_wf _ _ Ic) | constructor]].
+    cbn [combine map Qsum fst snd get]. rewrite (removed_rel_loss w s c (remove cf c w)); [ring | apply (inv_wf _ _ Ic) | right; reflexivity].
+  - destruct (getp e n) as [p|] eqn:E1; [|discriminate]. destruct (premove cf p r w) as [p'|] eqn:Er; [|discriminate].
+    intros H; inversion H; subst; clear H. cbn [s_trash s_to0 s_to1].
+    pose proof (getp_inv _ _ _ _ He E1) as Ip. rewrite !amount_p. rewrite trash_of_unfold.
+    pose proof Er as Er0. unfold premove in Er. apply nonempty_ok in Er. destruct Er as [Er _]. unfold bind in Er.
+    destruct (apply_wells _ _ (wells p)) as [ws|] eqn:E; [|discriminate]. inversion Er; subst p'; simpl. clear Er.
+    destruct (apply_wells_spec _ _ _ _ E) as (Hl & _ & _).
+    assert (Hwf : Forall (fun b => wfc (cont b)) (wells p)).
+    { eapply Forall_impl; [|exact Ip]. intros b Ib. apply (inv_wf _ _ Ib). }
+    assert (HR : forall j b a, nth_error (wells p) j = Some b -> nth_error ws j = Some a -> removed_rel w b a).
+    { unfold apply_wells, bind in E.
+      destruct (fold_wells _ (region_idx (ncols p) r) tt (wells p)) as [[u ws1]|] eqn:E2; [|discriminate]. simpl in E. inversion E; subst ws1.
+      eapply (fold_wells_rel _ (removed_rel w)); [| | exact E2].
+      - intros u0 x u1 x' b Rb Hf. simpl in Hf. inversion Hf; subst. destruct Rb as [Eq|Eq]; right; simpl; rewrite Eq; [reflexivity | apply filter_idem].
+      - intros j b x Eb Ex. rewrite Eb in Ex. inversion Ex; subst. left. reflexivity. }
+    rewrite (trash_of_get s (wells p) ws [] Hl Hwf). rewrite (Qsum_combine_loss w s _ _ Hl Hwf HR). simpl. ring.
+Qed.
+
+(* ---------- steps_ok from the shape of the recipe: no step mentions a name that a later step creates ---------- *)
+Definition step_refs (st : rstep) : list nat :=
+  match st with
+  | SCreate _ _ _ | SSolution _ _ _ _ => []
+  | SSolutionC _ _ v _ => [v]
+  | SSolutionFrom src _ _ _ _ _ => [src]
+  | STransfer a b _ => [rname a; rname b]
+  | SRemove t _ | SFill t _ _ => [rname t]
+  | SDilute n _ _ _ => [n]
+  end.
+Definition step_names (st : rstep) : list nat :=
+  match step_declares st with Some n => n :: step_refs st | None => step_refs st end.
+
+Lemma bake_step_names cf d13 e st e' k : bake_step cf d13 e st = Ok (e', k) ->
+  In (s_to k) (step_names st) /\ (forall m, frm_name k = Some m -> In m (step_names st)).
+Proof.
+  unfold frm_name. destruct st; simpl; unfold bind, step_names; simpl.
+  - destruct (geto e name); [|discriminate]. destruct (make_container _ _ _ _); [|discriminate].
+    intros H; inversion H; subst; simpl. split; [auto | discriminate].
+  - destruct (geto e name); [|discriminate]. destruct (create_solution _ _ _ _ _); [|discriminate].
+    intros H; inversion H; subst; simpl. split; [auto | discriminate].
+  - destruct (Nat.eqb name solvent); [discriminate|]. destruct (geto e name); [|discriminate]. destruct (getc e solvent); [|discriminate].
+    destruct (create_solution_c _ _ _ _ _) as [[xa xb]|]; [|discriminate]. intros H; inversion H; subst; simpl.
+    split; [auto | intros mm Hm; inversion Hm; auto].
+  - destruct (Nat.eqb src name); [discriminate|]. destruct (geto e name); [|discriminate]. destruct (getc e src); [|discriminate].
+    destruct (create_solution_from _ _ _ _ _ _ _) as [[xa xb]|]; [|discriminate]. intros H; inversion H; subst; simpl.
+    split; [auto | intros mm Hm; inversion Hm; auto].
+  - destruct src as [a|a ra], dst as [b|b rb]; simpl.
+    + destruct (Nat.eqb a b); [discriminate|]. destruct (getc e a); [|discriminate]. destruct (getc e b); [|discriminate].
+      destruct (transfer _ _ _ _) as [[x y]|]; [|discriminate]. intros H; inversion H; subst; simpl. split; [auto | intros mm Hm; inversion Hm; auto].
+    + destruct (getc e a); [|discriminate]. destruct (getp e b); [|discriminate].
+      destruct (c_to_p _ _ _ _ _) as [[x y]|]; [|discriminate]. intros H; inversion H; subst; simpl. split; [auto | intros mm Hm; inversion Hm; auto].
+    + destruct (getp e a); [|discriminate]. destruct (getc e b); [|discriminate].
+      destruct (p_to_c _ _ _ _ _) as [[x y]|]; [|discriminate]. intros H; inversion H; subst; simpl. split; [auto | intros mm Hm; inversion Hm; auto].
+    + destruct (Nat.eqb a b).
+      * destruct (getp e a); [|discriminate]. destruct (p_to_p_same _ _ _ _ _); [|discriminate].
+        intros H; inversion H; subst; simpl. split; [auto | intros mm Hm; inversion Hm; auto].
+      * destruct (getp e a); [|discriminate]. destruct (getp e b); [|discriminate].
+        destruct (p_to_p _ _ _ _ _ _) as [[x y]|]; [|discriminate]. intros H; inversion H; subst; simpl. split; [auto | intros mm Hm; inversion Hm; auto].
+  - destruct t as [n|n r]; simpl.
+    + destruct (getc e n); [|discriminate]. intros H; inversion H; subst; simpl. split; [auto | discriminate].
+    + destruct (getp e n); [|discriminate]. destruct (premove _ _ _ _); [|discriminate]. intros H; inversion H; subst; simpl. split; [auto | discriminate].
+  - destruct (getc e name); [|discriminate]. destruct (dilute _ _ _ _ _); [|discriminate].
+    intros H; inversion H; subst; simpl. split; [auto | discriminate].
+  - destruct t as [n|n r]; simpl.
+    + destruct (getc e n); [|discriminate]. destruct (fill_to _ _ _ _); [|discriminate]. intros H; inversion H; subst; simpl. split; [auto | discriminate].
+    + destruct (getp e n); [|discriminate]. destruct (if d13 then _ else _); [|discriminate]. intros H; inversion H; subst; simpl. split; [auto | discriminate].
+Qed.
+Lemma bake_step_touches cf d13 e st e' k m : bake_step cf d13 e st = Ok (e', k) -> ~ In m (step_names st) -> rget m e' = rget m e.
+Proof.
+  intros H Hm. destruct (bake_step_names _ _ _ _ _ _ H) as [Hto Hfrm].
+  destruct (bake_step_frame _ _ _ _ _ _ H) as (_ & _ & _ & Hother & _).
+  apply Hother; [intro; subst; contradiction | intro Hx; apply Hm; apply Hfrm; exact Hx].
+Qed.
+
+Fixpoint no_early_use (steps : list rstep) : Prop :=
+  match steps with
+  | [] => True
+  | st :: t => (forall n, In n (created_names t) -> ~ In n (step_names st)) /\ no_early_use t
+  end.
+
+Lemma steps_ok_from_shape cf d13 : forall steps e,
+  Forall wf_rstep steps -> no_early_use steps ->
+  (forall n, In n (created_names steps) -> rget n e = Some (placeholder n)) -> steps_ok cf d13 e steps.
+Proof.
+  induction steps as [|st t IH]; intros e Hw Hno Hph; simpl; [exact I|].
+  inversion Hw; subst. destruct Hno as [Hst Hno]. split; [assumption|]. split.
+  - unfold step_fresh. destruct (step_declares st) as [n|] eqn:Ed; [|exact I]. apply Hph. unfold created_names. simpl. rewrite Ed. left. reflexivity.
+  - destruct (bake_step cf d13 e st) as [[e' k]|] eqn:E; [|exact I]. apply IH; auto.
+    intros n Hn. rewrite (bake_step_touches _ _ _ _ _ _ n E (Hst n Hn)). apply Hph.
+    unfold created_names in *. simpl. apply in_or_app. right. exact Hn.
+Qed.
+
+Lemma rget_app_r n e1 e2 : ~ In n (map fst e1) -> rget n (e1 ++ e2) = rget n e2.
+Proof.
+  induction e1 as [|[k x] t IH]; simpl; intros H; [reflexivity|].
+  destruct (Nat.eqb k n) eqn:E; [apply Nat.eqb_eq in E; subst; exfalso; apply H; left; reflexivity | apply IH; intro; apply H; right; assumption].
+Qed.
+Lemma declare_steps_cons objs st t :
+  declare_steps objs (st :: t) = declare_steps (match step_declares st with Some n => objs ++ [(n, placeholder n)] | None => objs end) t.
+Proof. reflexivity. Qed.
+Lemma declared_placeholder steps : forall objs n,
+  NoDup (map fst objs ++ created_names steps) -> In n (created_names steps) -> rget n (declare_steps objs steps) = Some (placeholder n).
+Proof.
+  induction steps as [|st t IH]; intros objs n Hnd Hin; [contradiction|].
+  rewrite declare_steps_cons. unfold created_names in Hnd, Hin. simpl in Hnd, Hin. fold (created_names t) in Hnd, Hin.
+  destruct (step_declares st) as [m|] eqn:Ed; simpl in Hnd, Hin.
+  - destruct Hin as [<-|Hin].
+    + apply declare_no_effect. rewrite rget_app_r; [simpl; rewrite Nat.eqb_refl; reflexivity|].
+      apply NoDup_remove_2 in Hnd. intro Hx. apply Hnd. apply in_or_app. left. exact Hx.
+    + apply IH; [|exact Hin]. rewrite map_app. simpl. rewrite <- app_assoc. exact Hnd.
+  - apply IH; assumption.
+Qed.
+
+(* for Recipe.bake: declared objects and created names are pairwise distinct (C16 enforces it), substances are well formed, and no
+   step mentions a name that a later step creates (the API returns the name only when the creating step is added) *)
+Theorem steps_ok_bake cf d13 objs steps :
+  Forall wf_rstep steps -> NoDup (map fst objs ++ created_names steps) -> no_early_use steps ->
+  steps_ok cf d13 (declare_steps objs steps) steps.
+Proof.
+  intros Hw Hnd Hno. apply steps_ok_from_shape; auto. intros n Hn. apply declared_placeholder; assumption.
+Qed.
+
+Lemma placeholder_inv cf n : obj_inv cf (placeholder n).
+Proof. simpl. apply (make_container_inv cf n None [] _ (Forall_nil _)). reflexivity. Qed.
+Lemma rget_snoc n e m o x : rget n (e ++ [(m, o)]) = Some x -> rget n e = Some x \/ (rget n e = None /\ x = o).
+Proof.
+  induction e as [|[k y] t IH]; simpl.
+  - destruct (Nat.eqb m n); [intros H; inversion H; auto | discriminate].
+  - destruct (Nat.eqb k n); [auto | exact IH].
+Qed.
+Lemma declare_steps_inv cf steps : forall objs, renv_inv cf objs -> renv_inv cf (declare_steps objs steps).
+Proof.
+  induction steps as [|st t IH]; intros objs He; [exact He|]. rewrite declare_steps_cons. apply IH.
+  destruct (step_declares st) as [m|]; [|exact He]. intros n o H. apply rget_snoc in H. destruct H as [H|[_ ->]]; [eapply He; exact H | apply placeholder_inv].
+Qed.
+Lemma declare_steps_amt s steps : forall objs n, amt s (declare_steps objs steps) n == amt s objs n.
+Proof.
+  induction steps as [|st t IH]; intros objs n; [reflexivity|]. rewrite declare_steps_cons. rewrite IH.
+  destruct (step_declares st) as [m|]; [|reflexivity]. unfold amt.
+  destruct (rget n (objs ++ [(m, placeholder m)])) as [x|] eqn:E.
+  - apply rget_snoc in E. destruct E as [E|[E ->]]; rewrite E; [reflexivity | apply amount_placeholder].
+  - destruct (rget n objs) as [y|] eqn:E2; [|reflexivity]. rewrite (rget_app_l _ _ _ _ E2) in E. discriminate.
+Qed.
+
+(* C09 for Recipe.bake, hypotheses on the shape of the recipe only *)
+Theorem bake_used_is_net_gain cf s dests objs steps e' tr :
+  NoDup dests -> renv_inv cf objs -> Forall wf_rstep steps -> NoDup (map fst objs ++ created_names steps) -> no_early_use steps ->
+  bake cf objs steps = Ok (e', tr) ->
+  used_raw s dests tr == dest_total s dests e' - dest_total s dests objs + trash_total s tr.
+Proof.
+  intros Hnd He Hw Hnames Hno H. unfold bake in H.
+  destruct (used_raw_is_net_gain cf true s dests steps _ e' tr Hnd (declare_steps_inv cf steps objs He)
+             (steps_ok_bake cf true objs steps Hw Hnames Hno) H) as [_ R].
+  rewrite R. assert (E : dest_total s dests (declare_steps objs steps) == dest_total s dests objs).
+  { unfold dest_total. apply Qsum_ext. intros n _. apply declare_steps_amt. }
+  rewrite E. reflexivity.
+Qed.
